@@ -959,6 +959,19 @@ pub fn drive(property: &str, level: &str, parts: Vec<Part>, tier: &str, extra_as
 
     known_lines.sort();
     known_lines.dedup();
+    // one line per listed finding: the witness replay and the hits in generated cases (of all parts) are merged
+    let mut merged: Vec<(String, Vec<String>)> = vec![];
+    for l in &known_lines {
+        let (head, tail) = match l.rfind("] ") {
+            Some(i) => (l[..i + 1].to_string(), l[i + 2..].to_string()),
+            None => (l.clone(), String::new()),
+        };
+        match merged.iter_mut().find(|m| m.0 == head) {
+            Some(m) => m.1.push(tail),
+            None => merged.push((head, vec![tail])),
+        }
+    }
+    let known_lines: Vec<String> = merged.into_iter().map(|(h, t)| format!("{h} {}", t.join("; "))).collect();
     for l in &known_lines {
         outln!("KNOWN-FINDING: {}", l);
     }
